@@ -63,11 +63,9 @@ SeedNamed ==
 Seeds == SeedLeaves \cup SeedContainers \cup SeedRecords \cup SeedNamed
 (* the quick tier explores two steps only from these *)
 QuickDeepSeeds ==
-  { PrimS("int"), PrimS("long"), E3, Arr(PrimS("int")), Un(<<PrimS("null"), PrimS("int")>>), Un(<<RecA, RecB>>),
+  { PrimS("long"), E3, Un(<<PrimS("null"), PrimS("int")>>),
     Rc("ns.R2", <<F("a", PrimS("int")), F("b", PrimS("string"))>>),
-    Rc("ns.R5", <<F("a", PrimS("date")), F("b", PrimS("timestamp-millis"))>>),
-    Rc("ns.RN", <<F("a", Fx("ns.N", 2)), F("b", RefS("ns.N"))>>),
-    Rc("ns.RL", <<F("v", PrimS("int")), F("next", Un(<<PrimS("null"), RefS("ns.RL")>>))>>) }
+    Rc("ns.RN", <<F("a", Fx("ns.N", 2)), F("b", RefS("ns.N"))>>) }
 
 RThin(s) ==
   CASE s.k \in IntKinds -> {[t |-> s.k, n |-> x] : x \in {NegNatToLE8(1), NatToLE8(16777217)}}
